@@ -107,7 +107,7 @@ func genTok(r *Rng, o GenOpts, term string, compNames []string) Tok {
 					l.AP = append(l.AP, uint64(r.Intn(5)))
 				}
 				if r.Chance(6) { // array positions whose varint needs more than one byte
-					l.AP[r.Intn(len(l.AP))] = []uint64{127, 128, 129, 300, 16384}[r.Intn(5)]
+					l.AP[r.Intn(len(l.AP))] = []uint64{127, 128, 129, 300, 16384, 1<<32 - 1, 1 << 32, 1<<63 - 1, 1 << 63, 1<<64 - 1}[r.Intn(10)]
 				}
 			}
 			if len(compNames) > 0 && r.Intn(4) != 0 {
@@ -225,6 +225,9 @@ func GenBatch(r *Rng, o GenOpts) Batch {
 				f.AP = []uint64{uint64(e)}
 				if nested {
 					f.AP = append(f.AP, uint64(r.Intn(3)))
+				}
+				if r.Chance(12) { // sparse arrays keyed by 64-bit numbers
+					f.AP[len(f.AP)-1] = []uint64{1 << 32, 1<<63 - 1, 1 << 63, 1<<64 - 1}[r.Intn(4)]
 				}
 				d.Fields = append(d.Fields, f)
 			}
